@@ -27,7 +27,7 @@ TWO_BRANCH_CONTEXTS = ('ifelse', 'ifelse_unres', 'nested_ifelse_arg', 'ifelse_sa
 # the call is written with the wrapper's star names, but in a scope where those names are bound to something else (the
 # parameters of a nested function, the targets of a comprehension): nothing of the wrapper's is forwarded
 SHADOW_CONTEXTS = ('shadow_nested', 'shadow_async', 'shadow_comp')
-ROUTES = ('global', 'closure', 'attr1', 'attr2', 'method', 'param', 'partial', 'wrapsdeco', 'helper')
+ROUTES = ('global', 'closure', 'attr1', 'attr2', 'method', 'param', 'partial', 'wrapsdeco', 'helper', 'kpartial')
 TAINTS_ANY = ('rebind', 'augassign', 'delrebind', 'fortarget', 'withas', 'walrus', 'starunpack', 'nonlocal',
               'importas', 'fromimportas', 'defname', 'classname', 'matchcapture', 'matchstar')
 TAINTS_VK = ('methodcall', 'itemstore', 'handover', 'handoverkw', 'nested_methodcall', 'nested_itemstore',
@@ -42,6 +42,8 @@ def callee_ref(route, uid, j):
     base = 'C%s_%d' % (uid, j)
     if route in ('global', 'wrapsdeco', 'wrapssig', 'helper'):
         return base
+    if route == 'kpartial':
+        return 'KB%s_%d' % (uid, j)
     if route == 'closure':
         return 'cal%d' % j
     if route == 'attr1':
@@ -248,6 +250,10 @@ def render(prog, uid):
         lines.append(ind + 'return 0')
     if prog.context == 'ifelse_unres':
         lines.append('UNRES%s = [C%s_1]' % (uid, uid))
+    if prog.route == 'kpartial':
+        # the callee is a partial object over a helper translated by modifiers.kwoargs, binding the real callee
+        for j in range(n):
+            lines.append('KB%s_%d = functools.partial(KAPPLY, C%s_%d)' % (uid, j, uid, j))
     if prog.route in ('attr1', 'attr2'):
         holder = 'NS' if prog.route == 'attr1' else 'NS.sub'
         for j in range(n):
